@@ -180,6 +180,13 @@ pub fn scaled_cases(thorough: bool) -> (Vec<Case>, Value) {
             }
         }
     }
+    // SW: appends through helpers::StreamWriter (7-byte writes: many small content blocks per file)
+    for mut p in families::tree(3, 6, 2, &[1, CHUNK + 1, BLOCK + 1], Entropy::Pattern).into_iter().step_by(if thorough { 1 } else { 3 }) {
+        p.stream_writer = true;
+        for cfg in cfgs_for(&[5]) {
+            cases.push(Case { p: p.clone(), cfg, keys: vec![0], family: "SW" });
+        }
+    }
     // M many files / many runs: ids beyond one byte, long offset lists, 16 recipients
     let many_files = Program::new((0..300).map(|i| Op::Add(i, i % 5)).collect(), Entropy::Pattern);
     let mut rr: Vec<Op> = (0..20).map(Op::Start).collect();
@@ -200,6 +207,7 @@ pub fn scaled_cases(thorough: bool) -> (Vec<Case>, Value) {
         cases.push(Case { p, cfg: Cfg { layers: l, level: 5, recipients: 16 }, keys: vec![0], family: "R" });
     }
     let bounds = json!({
+        "SW": "program tree (<=3 files, <=6 ops, <=2 appends of {1, chunk+1, block+1}) with every append performed through helpers::StreamWriter in 7-byte writes",
         "M": "300 files added back to back; 20 files started together then fed round-robin for 12 rounds (240 runs) and ended in reverse order",
         "A1": format!("one file, one piece, every size 0..={} x 4 layer combos x levels {:?}", families::a1_max(), lv_a1),
         "A2": "one file, two pieces (s1 in 0..=chunk+8, s2 in 0..=chunk+8 and block-1..block+2)",
